@@ -1,0 +1,11 @@
+//go:build verif
+
+// Verification harness for property C01 (frame round trip), read by /verif/govc. Only built with the tag "verif".
+// rtUnescape states the second half: for any byte string e that satisfies escape's postcondition for an input d,
+// unescape(e) succeeds and returns exactly d. rtEscape composes the real escape with it, so that the precondition of
+// rtUnescape is checked against the contract of escape and the composition unescape(escape(d)) == d is an obligation.
+package jt808
+
+func rtUnescape(d, e []byte) ([]byte, error) { return unescape(e) }
+
+func rtEscape(d []byte) ([]byte, error) { return rtUnescape(d, escape(d)) }
